@@ -1,5 +1,6 @@
 use crate::dlt::{
-    parse_dlt_with_serial_header, parse_dlt_with_storage_header, DltMessage, DltMessageIndexType,
+    is_storage_header_pattern, parse_dlt_with_serial_header, parse_dlt_with_storage_header,
+    DltMessage, DltMessageIndexType,
 };
 use slog::debug;
 use std::io::BufRead;
@@ -60,7 +61,14 @@ where
                               // we loop here again
                         }
                         _ => {
-                            break;
+                            // not enough data for a msg with storage header. If no storage header has
+                            // been seen yet and the data doesn't start with one it might still be a
+                            // (shorter) msg with serial header. So we try that below.
+                            if self.detected_storage_header
+                                || is_storage_header_pattern(self.reader.fill_buf().unwrap())
+                            {
+                                break;
+                            }
                         }
                     },
                 }
